@@ -127,6 +127,18 @@ theorem as_if_never_received (D : Dec) (c : SCfg) (pre suf : List Rx) (bad : Rx)
   · exact rejected_no_effect D c bad h
   · exact unparsable_envelope_no_effect D c bad h1 h2
 
+/-- the same for the complete chain as it runs: raw loop → `gn_data_indicate` (catch-all) → `process_basic_header` -/
+theorem as_if_never_received_station (D : Dec) (c : SCfg) (pre suf : List Rx) (bad : Rx)
+    (hbad : rejected c.recv bad.bytes ∨ (classify c.recv bad.bytes = .secured ∧ D.msg bad.bytes = none)) (st : St) :
+    loopRun mro rawLoop Rx.stdoutBroken (stationIndicate mro gnIndicate D c) st (pre ++ bad :: suf)
+      = loopRun mro rawLoop Rx.stdoutBroken (stationIndicate mro gnIndicate D c) st (pre ++ suf) := by
+  apply no_effect_as_if_never_received mro rawLoop Rx.stdoutBroken raw_loop_survives
+  have hne : NoEffect (stationRecv D c) bad := by
+    rcases hbad with h | ⟨h1, h2⟩
+    · exact rejected_no_effect D c bad h
+    · exact unparsable_envelope_no_effect D c bad h1 h2
+  exact noEffect_indicate mro gnIndicate Rx.stdoutBroken (stationRecv D c) bad hne
+
 /-- the same behind the C-V2X callback loop -/
 theorem as_if_never_received_cv2x (D : Dec) (c : SCfg) (pre suf : List Rx) (bad : Rx)
     (hbad : rejected c.recv bad.bytes ∨ (classify c.recv bad.bytes = .secured ∧ D.msg bad.bytes = none)) (st : St) :
